@@ -1,7 +1,7 @@
 (* C11 - OrderedMap and Set: insertion-ordered model, exact diffs, no deadlock. Statements only.
    els s (= s_toslice s) is the duplicate-free list of elements in first-insertion order, the abstraction of a state. *)
 From Coq Require Import NArith ZArith List Bool.
-From Verif.C11_Set Require Import Model Refine SetBasics ArithCodec SetProofs Corr Iter History Locks Skeletons.
+From Verif.C11_Set Require Import Model Refine SetBasics ArithCodec SetProofs Corr Iter Iter2 History Locks Skeletons.
 Import ListNotations.
 Open Scope N_scope.
 
@@ -240,7 +240,8 @@ Theorem C11_reachable_sinv : forall init h, SInv (run_ops (s_new init) h).
 Proof. exact reachable_sinv. Qed.
 
 (* "a key removed before the iteration reaches it is not visited" does NOT hold for all consumers (known finding
-   foreach-visits-removed-element-after-current-removed): the consumer at key 2 deletes 2 and then 3; 3 is still shown *)
+   foreach-visits-removed-element-after-current-removed): the consumer at key 2 deletes 2 and then 3; 3 is still shown.
+   The unguarded statement stays visible here; its guarded form is C11_iter_removed_not_visited below. *)
 Definition C11_iter_removed_not_visited_full_statement : Prop :=
   forall init h sc k, let o := run_ops (s_new init) h in
   forall i ops b, nth_error sc i = Some (ops, b) -> In (MDel k) ops ->
@@ -251,6 +252,61 @@ Proof.
   intros H. specialize (H [1; 2; 3; 4; 5] [] [([], true); ([MDel 2; MDel 3], true)] 3 1%nat [MDel 2; MDel 3] true eq_refl).
   apply H; vm_compute; auto.
 Qed.
+
+(* The guarded positive form, for every reachable state and every finite consumer script, ForEach and ForEachReverse.
+   Guard (Iter2.cur_kept sc keys, keys = the keys shown): the i-th consumer call - the one that is shown the i-th key - neither
+   deletes that key nor clears, i.e. no call removes the element the iteration is positioned on. state_at o sc i is the map at
+   the moment the i-th entry is shown (the first i consumer calls have run). Then
+   (1) every entry shown is an entry of the map at that moment (key present, with the value shown);
+   (2) hence a key deleted by the i-th call and never inserted by the script is not shown after the i-th entry
+       (the statement refuted above, now under the guard). *)
+Theorem C11_iter_removed_not_visited : forall init h sc, let o := run_ops (s_new init) h in
+  (cur_kept sc (map fst (snd (fst (om_foreach_re o sc)))) = true ->
+     (forall i k v, nth_error (snd (fst (om_foreach_re o sc))) i = Some (k, v) -> om_get (state_at o sc i) k = Some v) /\
+     (forall k i ops b, (forall e, In e sc -> existsb (sets k) (fst e) = false) ->
+        nth_error sc i = Some (ops, b) -> In (MDel k) ops -> ~ In k (skipn (S i) (map fst (snd (fst (om_foreach_re o sc))))))) /\
+  (cur_kept sc (map fst (snd (fst (om_foreachrev_re o sc)))) = true ->
+     (forall i k v, nth_error (snd (fst (om_foreachrev_re o sc))) i = Some (k, v) -> om_get (state_at o sc i) k = Some v) /\
+     (forall k i ops b, (forall e, In e sc -> existsb (sets k) (fst e) = false) ->
+        nth_error sc i = Some (ops, b) -> In (MDel k) ops -> ~ In k (skipn (S i) (map fst (snd (fst (om_foreachrev_re o sc))))))).
+Proof.
+  intros init h sc. exact (iter_removed_not_visited (run_ops (s_new init) h) sc (reachable_sinv init h)).
+Qed.
+
+(* Insertions during the iteration, same guard. ForEach that is not stopped by the consumer shows every key that is in the map
+   when the walk reaches the tail (in particular every key inserted during the iteration and still there: new elements are linked
+   behind the position). ForEachReverse never shows an element inserted during the iteration: the key of every entry shown is in
+   the map when the iteration starts and at every consumer call up to the moment it is shown (j = 0: at the start). *)
+Theorem C11_iter_inserted_visited : forall init h sc, let o := run_ops (s_new init) h in
+  (cur_kept sc (map fst (snd (fst (om_foreach_re o sc)))) = true -> snd (om_foreach_re o sc) = true ->
+     forall k, om_has (fst (fst (om_foreach_re o sc))) k = true -> In k (map fst (snd (fst (om_foreach_re o sc))))) /\
+  (cur_kept sc (map fst (snd (fst (om_foreachrev_re o sc)))) = true ->
+     forall i k v, nth_error (snd (fst (om_foreachrev_re o sc))) i = Some (k, v) ->
+     forall j, (j <= i)%nat -> om_has (state_at o sc j) k = true).
+Proof.
+  intros init h sc. exact (iter_inserted_visited (run_ops (s_new init) h) sc (reachable_sinv init h)).
+Qed.
+
+(* non-vacuity: the consumer at key 2 deletes the next element (3), the previous one (1) and inserts 9, never the current one:
+   the guard holds, 3 is not shown, 9 is shown; reverse: the consumer at key 4 deletes 3 (next in reverse), 5 (previous), inserts 9:
+   neither 3 nor 9 is shown. The witness of the refutation above and a consumer that deletes the current tail violate the guard,
+   and without the guard the inserted key is lost (consumer at the tail 2: Delete 2, Set 9: the walk ends, 9 is in the map). *)
+Example C11_nonvacuous_iter_guard :
+  let o := s_new [1; 2; 3; 4; 5] in
+  let sc := [([], true); ([MDel 3; MDel 1; MSet 9 0], true)] in
+  let scr := [([], true); ([MDel 3; MDel 5; MSet 9 0], true)] in
+  (cur_kept sc (map fst (snd (fst (om_foreach_re o sc)))) = true /\ snd (om_foreach_re o sc) = true /\
+   map fst (snd (fst (om_foreach_re o sc))) = [1; 2; 4; 5; 9] /\
+   map fst (om_list (fst (fst (om_foreach_re o sc)))) = [2; 4; 5; 9] /\
+   forallb (fun e => negb (existsb (sets 3) (fst e))) sc = true) /\
+  (cur_kept scr (map fst (snd (fst (om_foreachrev_re o scr)))) = true /\
+   map fst (snd (fst (om_foreachrev_re o scr))) = [5; 4; 2; 1] /\
+   map fst (om_list (fst (fst (om_foreachrev_re o scr)))) = [1; 2; 4; 9]) /\
+  (let bad := [([], true); ([MDel 2; MDel 3], true)] in cur_kept bad (map fst (snd (fst (om_foreach_re o bad)))) = false) /\
+  (let o2 := s_new [1; 2] in let bad := [([], true); ([MDel 2; MSet 9 0], true)] in
+   cur_kept bad (map fst (snd (fst (om_foreach_re o2 bad)))) = false /\
+   map fst (snd (fst (om_foreach_re o2 bad))) = [1; 2] /\ om_has (fst (fst (om_foreach_re o2 bad))) 9 = true).
+Proof. vm_compute. repeat split; reflexivity. Qed.
 
 (* regression for the class "the consumer deletes the element the iteration stands on" (forward and reverse):
    nothing that stays in the map is lost *)
@@ -295,3 +351,16 @@ Print Assumptions C11_iter_reentrant_reverse.
 Print Assumptions C11_iter_reentrant_once.
 Print Assumptions C11_reachable_sinv.
 Print Assumptions C11_refuted_iter_removed_visited.
+Print Assumptions C11_iter_removed_not_visited.
+Print Assumptions C11_iter_inserted_visited.
+Print Assumptions C11_algebra_any.
+Print Assumptions C11_algebra_hasall.
+Print Assumptions C11_algebra_is.
+Print Assumptions C11_algebra_toslice.
+Print Assumptions C11_refines_add.
+Print Assumptions C11_refines_clear.
+Print Assumptions C11_refines_get.
+Print Assumptions C11_refines_head_tail.
+Print Assumptions C11_refines_keys_unique.
+Print Assumptions C11_refines_sdelete.
+Print Assumptions C11_refines_size.
